@@ -209,7 +209,7 @@ def abcd_quantities(ps, ap_type, ap_value, field_type, max_field):
     if ap_type == 'EPD':
         out['EPD'] = ap_value
     elif ap_type == 'imageFNO':
-        out['EPD'] = out['f2'] * (-1) ** sum(1 for s in ps if s['refl']) / ap_value
+        out['EPD'] = abs(out['f2']) / ap_value
     elif ap_type == 'objectNA' and 'EPL' in out:
         u0 = math.asin(ap_value / obj['npost'])
         out['EPD'] = 2 * (out['EPL'] - obj['z']) * math.tan(u0)
@@ -267,7 +267,7 @@ def check_paraxial(ps, spec, impl, rtol=1e-7):
                 continue
             cmp(name, impl[name], q[name])
     if 'f2' in q and 'EPD' in q and not isinstance(impl.get('FNO'), tuple) and ap_type != 'imageFNO':
-        cmp('FNO', impl['FNO'], (-1 if odd_mirrors else 1) * q['f2'] / q['EPD'])
+        cmp('FNO', impl['FNO'], abs(q['f2']) / q['EPD'])
     mr = impl.get('marginal_ray')
     if mr and mr[0] != 'err' and 'marginal' in q and not isinstance(impl.get('EPD'), tuple):
         ys, us = mr
